@@ -20,6 +20,8 @@ def eval_call(fv, node, st, spec):
     if isinstance(f, ast.Name):
         name = f.id
         shadowed = name in st.env or any(name in d for d in fv.bound_env)
+        if shadowed and fv.c is not None and name in fv.c.callables:
+            return call_user(fv, fv.c.callables[name], node, st, spec)
         if not shadowed:
             h = SPEC_FORMS.get(name)
             if h is not None and (spec or name in ('implies',)):
@@ -27,6 +29,8 @@ def eval_call(fv, node, st, spec):
             if name in fv.E.sc.ghosts:
                 args = [fv.ev(a, st, spec) for a in node.args]
                 return fv.ghost_app(name, args, st, node)
+            if fv.c is not None and name in fv.c.opts.get('callables', {}):
+                pass
             if name in fv.local_funcs or (fv.c and fv.E.find_contract(fv.qual + '.' + name)):
                 return call_user(fv, fv.qual + '.' + name, node, st, spec, closure=True)
             for enc_q in enclosing_quals(fv):
@@ -39,6 +43,14 @@ def eval_call(fv, node, st, spec):
             if q is not None:
                 return call_qual(fv, q, node, st, spec)
         fv.err(node, 'call of %s not resolvable' % name)
+    if isinstance(f, ast.Subscript) and isinstance(f.value, ast.Name) and fv.module is not None:
+        # table of constructors, e.g. COMPILERS[lang](args): contract "<module>.<TABLE>[]" (key, *args)
+        q = fv.module.name + '.' + f.value.id + '[]'
+        c = fv.E.find_contract(q)
+        if c is None:
+            fv.err(node, 'call through table %s needs a contract %s' % (f.value.id, q))
+        fake = ast.copy_location(ast.Call(func=f.value, args=[f.slice] + list(node.args), keywords=node.keywords), node)
+        return apply_contract(fv, c, fake, st, spec, None)
     if isinstance(f, ast.Attribute):
         # module function?
         if isinstance(f.value, ast.Name) and fv.module and f.value.id in fv.module.imports \
@@ -74,7 +86,7 @@ def resolve_name(fv, name):
 
 
 def call_qual(fv, q, node, st, spec):
-    c = fv.E.find_contract(q)
+    c = fv.E.find_contract(q) or fv.E.find_contract('%s/%d' % (q, len(node.args) + len(node.keywords)))
     if c is not None:
         return apply_contract(fv, c, node, st, spec, None)
     # class constructor?
@@ -156,7 +168,8 @@ def receiver_family_contract(fv, cname, meth):
 def bind_args(fv, c, node, st, spec, recv, closure=False):
     params = list(c.params)
     vals = {}
-    pos = [fv.ev(a, st, spec) for a in node.args]
+    pos = [SV(fv.E.fresh('lambda', ANY).term, ANY) if isinstance(a, ast.Lambda) else fv.ev(a, st, spec)
+           for a in node.args]
     if recv is not None:
         pos = [recv] + pos
     if len(pos) > len(params):
@@ -276,10 +289,9 @@ def apply_contract(fv, c, node, st, spec, recv, closure=False):
         # closure variables of nested functions are visible by name
         for k, v in st.env.items():
             cst.env.setdefault(k, v)
-    else:
-        for k, v in st.env.items():
-            if k.startswith('glob:'):
-                cst.env[k] = v
+    for k, v in st.env.items():
+        if k.startswith('glob:'):
+            cst.env[k] = v
     sub.old_state = cst.copy()
     # preconditions
     if not spec:
@@ -301,15 +313,25 @@ def apply_contract(fv, c, node, st, spec, recv, closure=False):
         fv.err(node, 'call of non-pure %s in a quantified/spec context' % c.qual)
     # the callee's frame must be within the caller's
     if fv.c is not None:
-        for mname in c.modifies:
-            if mname.startswith('.') and mname not in fv.c.modifies and '.*' not in fv.c.modifies:
-                fv.oblige(st, 'frame[call %s modifies %s]' % (c.qual.split('.')[-1], mname), z3.BoolVal(False), node)
+        mine = fv.modifies_keys(fv.c)
+        for key in sorted(fv.modifies_keys(c)):
+            if key not in mine and '*' not in mine:
+                fv.oblige(st, 'frame[call %s modifies .%s]' % (c.qual.split('.')[-1], key), z3.BoolVal(False), node)
     # havoc what the callee may modify
     post = State(dict(cst.env), dict(st.heap), st.pc)
     for mname in c.modifies:
         havoc_target(fv, sub, mname, st, post, vals, closure)
     res = fv.fresh_typed(st, 'r_' + c.qual.split('.')[-1], rty)
     sub.result_sv = res
+    if c.opts.get('allocates'):
+        from .heap import ALLOC0
+        a0 = st.env['__alloc'].term if '__alloc' in st.env else ALLOC0
+        a1 = z3.Const('alloc!%d' % next(E.counter), z3.ArraySort(P.V, z3.BoolSort()))
+        o = z3.Const('o!al%d' % next(E.counter), P.V)
+        fv.add_fact(st, z3.ForAll([o], z3.Implies(z3.Select(a0, o), z3.Select(a1, o)), patterns=[z3.Select(a0, o)]))
+        sub.old_state.env['__alloc'] = SV(a0, ANY)
+        post.env['__alloc'] = SV(a1, ANY)
+        st.env['__alloc'] = SV(a1, ANY)
     for k in list(post.env):
         pass
     for ename, ee in c.ensures:
@@ -320,40 +342,45 @@ def apply_contract(fv, c, node, st, spec, recv, closure=False):
     for mname in c.modifies:
         if mname.startswith('.'):
             continue
-        if mname in post.env and (closure or mname.startswith('glob:')):
+        gk = fv.global_key(mname) or sub.global_key(mname)
+        if mname in post.env and closure and (gk is None or mname in st.env):
             st.env[mname] = post.env[mname]
-        elif ('glob:' + mname) in post.env:
-            st.env['glob:' + mname] = post.env['glob:' + mname]
+        elif gk is not None and ('glob:' + gk) in post.env:
+            st.env['glob:' + gk] = post.env['glob:' + gk]
     if st.heap is not post.heap:
         changed = [k for k in post.heap if k not in st.heap or not st.heap[k].eq(post.heap[k])]
         if changed:
             st.heap = post.heap
             st.heap_version += 1
+    if c.opts.get('noreturn'):
+        st.dead = True
+        st.pc = z3.BoolVal(False)
     return res
 
 
 def havoc_target(fv, sub, mname, st, post, vals, closure):
     E = fv.E
     if mname.startswith('.'):
-        attr = mname[1:]
-        d = E.field_types.get(attr)
-        if d is None:
+        attr = mname[1:].split('.')[-1]
+        from .symexec import Contract_stub
+        keys = fv.modifies_keys(Contract_stub([mname]))
+        vs = [(k, t) for k, t in fv.field_variants(attr) if k in keys]
+        if not vs:
             raise EngineError('modifies %s: undeclared field' % mname)
-        fty = E.parse_ty(next(iter(d.values())))
-        fv.heap_array(st, attr, fty)
-        new = z3.Const('H_%s!%d' % (attr, next(E.counter)), z3.ArraySort(P.V, zsort(fty)))
-        post.heap[attr] = new
+        for key, fty in vs:
+            fv.heap_array(st, attr, fty)
+            post.heap[key] = z3.Const('H_%s!%d' % (key, next(E.counter)), z3.ArraySort(P.V, zsort(fty)))
         return
     key = mname
     src = post.env
-    if key not in src and ('glob:' + key) in src:
-        key = 'glob:' + key
-    if key not in src:
-        sv = fv.global_value(mname, st)
-        if sv is None:
+    if key not in src or not closure:
+        gk = fv.global_key(mname) or sub.global_key(mname)
+        if gk is not None:
+            key = 'glob:' + gk
+            if key not in src:
+                src[key] = st.env[key] if key in st.env else (fv.global_value(mname, st) or sub.global_value(mname, st))
+        elif key not in src:
             raise EngineError('modifies %s: not a visible variable' % mname)
-        key = 'glob:' + mname
-        src[key] = sv
     old = src[key]
     nv = fv.fresh_typed(st, mname.replace(':', '_'), old.ty)
     post.env[key] = nv
@@ -528,6 +555,22 @@ def sf_fresh(fv, node, st):
     return SV(is_fresh(fv, st, v), BOOL)
 
 
+def sf_newobj(fv, node, st):
+    """newobj(x): x was not allocated in the pre-state of this contract and is allocated now"""
+    from .heap import ALLOC0
+    v = fv.ev(node.args[0], st, True)
+    pre = fv.old_state.env['__alloc'].term if (fv.old_state is not None and '__alloc' in fv.old_state.env) else ALLOC0
+    cur = st.env['__alloc'].term if '__alloc' in st.env else ALLOC0
+    return SV(z3.And(z3.Not(z3.Select(pre, box(v))), z3.Select(cur, box(v))), BOOL)
+
+
+def sf_allocated_now(fv, node, st):
+    from .heap import ALLOC0
+    v = fv.ev(node.args[0], st, True)
+    cur = st.env['__alloc'].term if '__alloc' in st.env else ALLOC0
+    return SV(z3.Select(cur, box(v)), BOOL)
+
+
 def sf_allocated(fv, node, st):
     from .heap import is_allocated_old
     v = fv.ev(node.args[0], st, True)
@@ -552,7 +595,7 @@ SPEC_FORMS = {
     'nodup': sf_nodup, 'take': sf_take, 'drop': sf_drop, 'seq_remove': sf_seq_remove, 'index_of': sf_index_of, 'restrict': sf_restrict,
     'mupdate': sf_mupdate, 'put': sf_put, 'rem': sf_rem, 'snoc': sf_snoc, 'set_add': sf_set_add, 'set_of': sf_set_of, 'elems': sf_elems,
     'empty_map': sf_empty_map, 'empty_seq': sf_empty_seq, 'empty_set': sf_empty_set, 'typed': sf_typed,
-    'cast': sf_cast, 'truthy': sf_truthy, 'fresh': sf_fresh, 'allocated': sf_allocated,
+    'cast': sf_cast, 'truthy': sf_truthy, 'fresh': sf_fresh, 'newobj': sf_newobj, 'allocated': sf_allocated, 'allocated_now': sf_allocated_now,
     'unchanged': sf_unchanged, 'ite': sf_ite,
 }
 
